@@ -38,6 +38,7 @@ const (
 
 type c10BPod struct {
 	uid      string
+	rawLabel string // a QoS label value koordinator does not know
 	label    apiext.QoSClass
 	kube     corev1.PodQOSClass
 	statusQ  bool // Status.QOSClass filled in (else derived from the spec)
@@ -59,7 +60,8 @@ type c10BApp struct {
 type c10BInput struct {
 	capMilli    int64
 	kubeResMil  int64  // capacity - allocatable
-	annoKind    string // none | resources | cpus
+	annoKind    string // none | resources | cpus | both (amount and CPU list together)
+	applyPolicy string // ApplyPolicy of the annotation: "" | Default | ReservedCPUsOnly
 	annoResMil  int64  // resources.cpu of the node reservation annotation
 	annoCPUs    []int  // reservedCPUs of the node reservation annotation
 	nodeUsage   float64
@@ -75,7 +77,7 @@ func (in *c10BInput) String() string {
 	if in.min != nil {
 		m = fmt.Sprint(*in.min)
 	}
-	s := fmt.Sprintf("cap=%dm kubeReserved=%dm anno=%s(res=%dm cpus=%v) nodeUsage=%v thr=%d%% min=%s exact=%v pods=[", in.capMilli, in.kubeResMil, in.annoKind, in.annoResMil, in.annoCPUs, in.nodeUsage, in.thr, m, in.exactFloats)
+	s := fmt.Sprintf("cap=%dm kubeReserved=%dm anno=%s/%s(res=%dm cpus=%v) nodeUsage=%v thr=%d%% min=%s exact=%v pods=[", in.capMilli, in.kubeResMil, in.annoKind, in.applyPolicy, in.annoResMil, in.annoCPUs, in.nodeUsage, in.thr, m, in.exactFloats)
 	for _, p := range in.pods {
 		s += fmt.Sprintf("{%s label=%q kube=%s statusQ=%v class=%d meta=%v usage=%v/%v} ", p.uid, p.label, p.kube, p.statusQ, p.class, p.hasMeta, p.hasUsage, p.usage)
 	}
@@ -113,6 +115,8 @@ func c10BuildPod(p c10BPod) *corev1.Pod {
 	pod := &corev1.Pod{ObjectMeta: metav1.ObjectMeta{Name: p.uid, Namespace: "ns", UID: types.UID(p.uid), Labels: map[string]string{}}}
 	if p.label != apiext.QoSNone {
 		pod.Labels[apiext.LabelPodQoS] = string(p.label)
+	} else if p.rawLabel != "" {
+		pod.Labels[apiext.LabelPodQoS] = p.rawLabel
 	}
 	ctr := corev1.Container{Name: "c"}
 	switch p.kube {
@@ -154,7 +158,7 @@ func c10PodClass(label apiext.QoSClass, kube corev1.PodQOSClass) int {
 
 func c10GenBudgetInput(r *kit.Rand) *c10BInput {
 	in := &c10BInput{exactFloats: r.Bool()}
-	cpus := kit.Pick(r, []int{1, 2, 3, 4, 8, 16, 32, 64, 96, 128, r.Range(1, 128), r.Range(1, 128)})
+	cpus := kit.Pick(r, []int{1, 2, 3, 4, 8, 16, 32, 64, 96, 128, r.Range(1, 128), r.Range(1, 128), r.Range(1, 128), kit.Pick(r, []int{192, 256, 384, 512, 1024})})
 	in.capMilli = int64(cpus) * 1000
 	if r.Pct(10) {
 		in.capMilli += int64(r.Range(1, 999)) // fractional capacity (virtual nodes)
@@ -177,13 +181,20 @@ func c10GenBudgetInput(r *kit.Rand) *c10BInput {
 		perm := r.Perm(cpus)
 		in.annoCPUs = append(in.annoCPUs, perm[:n]...)
 		sort.Ints(in.annoCPUs)
+		if r.Pct(20) { // amount and CPU list together
+			in.annoKind = "both"
+			in.annoResMil = int64(kit.Pick(r, []int{500, 1000, 4000, r.Range(0, c10Min(16000, int(in.capMilli)))}))
+		}
+	}
+	if in.annoKind != "none" {
+		in.applyPolicy = kit.Pick(r, []string{"", "", "", string(apiext.NodeReservationApplyPolicyDefault), string(apiext.NodeReservationApplyPolicyReservedCPUsOnly)})
 	}
 	in.thr = int64(kit.Pick(r, []int{0, 1, 50, 65, 65, 65, 99, 100, r.Range(0, 100), r.Range(0, 100)}))
 	if r.Pct(65) {
 		m := int64(kit.Pick(r, []int{0, 1, 5, 10, 25, 50, 100, r.Range(0, 100)}))
 		in.min = &m
 	}
-	npods := kit.Pick(r, []int{0, 1, 2, 3, 5, 8, 12})
+	npods := kit.Pick(r, []int{0, 1, 2, 3, 5, 8, 12, 12, 30, 100})
 	ambigAllowed := r.Pct(12)
 	labels := []apiext.QoSClass{apiext.QoSLSE, apiext.QoSLSR, apiext.QoSLS, apiext.QoSLS, apiext.QoSBE, apiext.QoSBE, apiext.QoSSystem, apiext.QoSNone}
 	perPod := c10Max(1, cpus/c10Max(1, npods))
@@ -207,6 +218,10 @@ func c10GenBudgetInput(r *kit.Rand) *c10BInput {
 			}
 		}
 		p.class = c10PodClass(p.label, p.kube)
+		if ambigAllowed && p.label == apiext.QoSNone && r.Pct(30) {
+			// a label value koordinator does not know: the statement does not say which class that is
+			p.rawLabel, p.class = kit.Pick(r, []string{"be", "Lsr", "best-effort", "x"}), c10Ambig
+		}
 		p.hasUsage = r.Pct(85)
 		p.usage = c10Usage(r, in.exactFloats, perPod)
 		if ambigAllowed && r.Pct(15) { // a usage sample of a pod the agent has no meta for (yet / any more)
@@ -214,7 +229,7 @@ func c10GenBudgetInput(r *kit.Rand) *c10BInput {
 		}
 		in.pods = append(in.pods, p)
 	}
-	napps := kit.Pick(r, []int{0, 0, 1, 2, 3})
+	napps := kit.Pick(r, []int{0, 0, 1, 2, 3, 3, 8})
 	for i := 0; i < napps; i++ {
 		a := c10BApp{name: fmt.Sprintf("app-%d", i), hasUsage: r.Pct(80), usage: c10Usage(r, in.exactFloats, c10Max(1, cpus/4))}
 		switch r.Intn(4) {
@@ -258,6 +273,8 @@ func c10GenBudgetInput(r *kit.Rand) *c10BInput {
 		}
 	case 2:
 		in.nodeUsage = sum
+	case 3: // far above the capacity (a usage spike over a short collect interval, a wrong sample)
+		in.nodeUsage = sum + float64(cpus*kit.Pick(r, []int{1, 2, 10}))
 	default:
 		in.nodeUsage = sum + c10Usage(r, in.exactFloats, c10Max(1, cpus/4))
 	}
@@ -278,10 +295,14 @@ func c10BuildBudget(in *c10BInput) c10BBuilt {
 	node.Status.Allocatable = corev1.ResourceList{corev1.ResourceCPU: *resource.NewMilliQuantity(in.capMilli-in.kubeResMil, resource.DecimalSI), corev1.ResourceMemory: resource.MustParse("60Gi")}
 	switch in.annoKind {
 	case "resources":
-		b, _ := json.Marshal(apiext.NodeReservation{Resources: corev1.ResourceList{corev1.ResourceCPU: *resource.NewMilliQuantity(in.annoResMil, resource.DecimalSI)}})
+		b, _ := json.Marshal(apiext.NodeReservation{ApplyPolicy: apiext.NodeReservationApplyPolicy(in.applyPolicy), Resources: corev1.ResourceList{corev1.ResourceCPU: *resource.NewMilliQuantity(in.annoResMil, resource.DecimalSI)}})
 		node.Annotations = map[string]string{apiext.AnnotationNodeReservation: string(b)}
 	case "cpus":
-		b, _ := json.Marshal(apiext.NodeReservation{ReservedCPUs: c10Ranges(in.annoCPUs)})
+		b, _ := json.Marshal(apiext.NodeReservation{ReservedCPUs: c10Ranges(in.annoCPUs), ApplyPolicy: apiext.NodeReservationApplyPolicy(in.applyPolicy)})
+		node.Annotations = map[string]string{apiext.AnnotationNodeReservation: string(b)}
+	case "both":
+		b, _ := json.Marshal(apiext.NodeReservation{ReservedCPUs: c10Ranges(in.annoCPUs), ApplyPolicy: apiext.NodeReservationApplyPolicy(in.applyPolicy),
+			Resources: corev1.ResourceList{corev1.ResourceCPU: *resource.NewMilliQuantity(in.annoResMil, resource.DecimalSI)}})
 		node.Annotations = map[string]string{apiext.AnnotationNodeReservation: string(b)}
 	}
 	out := c10BBuilt{node: node, pm: map[string]float64{}, appUsage: map[string]float64{}}
@@ -351,33 +372,59 @@ func c10BudgetOracle(in *c10BInput) (lo, hi *big.Rat, facts map[string]bool) {
 		}
 	}
 	system := new(big.Rat).Sub(rat(in.nodeUsage), all)
-	resMilli := in.kubeResMil
+	// the annotation's reservation: an amount, or the number of listed CPUs. Where the statement
+	// ("at least the node reservation") does not decide - amount and list given together, or apply
+	// policy ReservedCPUsOnly ("does not affect the amount of schedulable resources") - both
+	// readings are accepted: annoHi is the largest reservation one can read, annoLo the smallest.
+	var annoLo, annoHi int64
+	nCPUs := int64(len(in.annoCPUs)) * 1000
 	switch in.annoKind {
 	case "resources":
-		if in.annoResMil > resMilli {
-			resMilli = in.annoResMil
-		}
+		annoLo, annoHi = in.annoResMil, in.annoResMil
 	case "cpus":
-		if v := int64(len(in.annoCPUs)) * 1000; v > resMilli {
-			resMilli = v
+		annoLo, annoHi = nCPUs, nCPUs
+	case "both":
+		annoLo, annoHi = in.annoResMil, nCPUs
+		if annoLo > annoHi {
+			annoLo, annoHi = annoHi, annoLo
 		}
 	}
-	reserved := big.NewRat(resMilli, 1000)
+	if in.applyPolicy == string(apiext.NodeReservationApplyPolicyReservedCPUsOnly) {
+		annoLo = 0
+	}
+	resLo, resHi := in.kubeResMil, in.kubeResMil
+	if annoLo > resLo {
+		resLo = annoLo
+	}
+	if annoHi > resHi {
+		resHi = annoHi
+	}
 	facts = map[string]bool{}
-	sysOrRes := system
-	if system.Cmp(reserved) < 0 {
-		sysOrRes = reserved
-		facts["reservation_dominates"] = true
-		if system.Sign() < 0 {
-			facts["system_negative"] = true
-		}
-	} else {
-		facts["system_dominates"] = true
+	if resLo != resHi {
+		facts["ambiguous_reservation"] = true
 	}
+	sysOr := func(resMilli int64, note bool) *big.Rat {
+		reserved := big.NewRat(resMilli, 1000)
+		if system.Cmp(reserved) < 0 {
+			if note {
+				facts["reservation_dominates"] = true
+				if system.Sign() < 0 {
+					facts["system_negative"] = true
+				}
+			}
+			return reserved
+		}
+		if note {
+			facts["system_dominates"] = true
+		}
+		return system
+	}
+	sysOrResHi, sysOrResLo := sysOr(resHi, true), sysOr(resLo, false)
 	target := big.NewRat(in.capMilli*in.thr, 100)
 	mk := func(withAmbig bool) *big.Rat {
-		used := new(big.Rat).Add(nonBE, sysOrRes)
+		used := new(big.Rat).Add(nonBE, sysOrResLo)
 		if withAmbig {
+			used = new(big.Rat).Add(nonBE, sysOrResHi)
 			used.Add(used, ambig)
 		}
 		used.Mul(used, thousand)
@@ -427,7 +474,7 @@ func c10CloneBudget(in *c10BInput) *c10BInput {
 //	  Raises that touch one term only, on exact (dyadic) usages: tolerance 0.
 func TestVerifC10Budget(t *testing.T) {
 	kit.Run(t, kit.Config{Property: "C10", Unit: "budget", Quick: 30000, Thorough: 1200000,
-		Rule: "random node (1-128 CPUs, kubelet and annotation reservation as amount or CPU list), 0-12 pods over all koordinator QoS labels x Kubernetes QoS classes with/without usage sample, 0-3 host applications, node usage above/at/below the consumers' sum, threshold and min percent boundary-biased, usages exact dyadic or arbitrary floats; the real calculateBESuppressCPU is compared with the statement's formula in exact rationals (tolerance -1/+3 milli, see source) and re-run after raising one non-BE input (pod usage with/without node usage, host-app usage, node usage, reservation, an extra non-BE pod); distinct = (size class, threshold class, min class, dominating term, floor active, sign, #pods class, raise kind); non-trivial = neither the floor nor a zero threshold decides the result",
+		Rule: "random node (1-128 CPUs, 7%: 192-1024; kubelet and annotation reservation as amount, CPU list or both, apply policy unset/Default/ReservedCPUsOnly), 0-100 pods over all koordinator QoS labels (also unknown values) x Kubernetes QoS classes with/without usage sample, 0-8 host applications, node usage above/at/below the consumers' sum or far above the capacity, threshold and min percent boundary-biased, usages exact dyadic or arbitrary floats; the real calculateBESuppressCPU is compared with the statement's formula in exact rationals (tolerance -1/+3 milli, see source) and re-run after raising one non-BE input (pod usage with/without node usage, host-app usage, node usage, reservation, an extra non-BE pod); distinct = (size class, threshold class, min class, dominating term, floor active, sign, #pods class, raise kind); non-trivial = neither the floor nor a zero threshold decides the result",
 	}, func(c *kit.Case) {
 		r := c.R
 		in := c10GenBudgetInput(r)
@@ -449,7 +496,7 @@ func TestVerifC10Budget(t *testing.T) {
 			c.Fail(sig, "calculateBESuppressCPU returned %dm, the statement's formula gives %s..%s m (tolerance -1/+3)\ninput: %s", got, lo.FloatString(4), hi.FloatString(4), in)
 		}
 		c.Count("budget_compared", 1)
-		for k, v := range map[string]bool{"floor_active": facts["floor_active"], "reservation_dominates": facts["reservation_dominates"], "system_dominates": facts["system_dominates"], "system_negative": facts["system_negative"], "ambiguous_consumers": facts["ambiguous"], "negative_budget": facts["negative_budget"], "no_min_configured": in.min == nil} {
+		for k, v := range map[string]bool{"floor_active": facts["floor_active"], "reservation_dominates": facts["reservation_dominates"], "system_dominates": facts["system_dominates"], "system_negative": facts["system_negative"], "ambiguous_consumers": facts["ambiguous"], "ambiguous_reservation": facts["ambiguous_reservation"], "negative_budget": facts["negative_budget"], "no_min_configured": in.min == nil} {
 			if v {
 				c.Count(k, 1)
 			}
@@ -563,7 +610,7 @@ func TestVerifC10Budget(t *testing.T) {
 				minC = "above-threshold"
 			}
 		}
-		c.Seen(c10SizeClass(int(in.capMilli/1000)), thrC, minC, facts["reservation_dominates"], facts["system_negative"], facts["floor_active"], facts["negative_budget"], c10SizeClass(len(in.pods)), len(in.apps), in.annoKind, in.exactFloats, facts["ambiguous"])
+		c.Seen(c10SizeClass(int(in.capMilli/1000)), thrC, minC, facts["reservation_dominates"], facts["system_negative"], facts["floor_active"], facts["negative_budget"], c10SizeClass(len(in.pods)), len(in.apps), in.annoKind, in.applyPolicy, in.exactFloats, facts["ambiguous"])
 		if c.K < 2 {
 			c.Sample(map[string]any{"input": in.String(), "budget_milli": got, "oracle_lo": lo.FloatString(3), "oracle_hi": hi.FloatString(3)})
 		}
